@@ -49,18 +49,21 @@ type c10Ext struct {
 type c10Large struct{ a, b, c uint32 }
 
 type c10Set struct {
-	kind    int // 0 prefix 1 neighbor 2 aspath 3 comm 4 ext 5 large
-	id      int
-	pfx     []c10Pfx
-	nets    []netip.Prefix
-	singles [][2]uint32 // mode, asn
-	res     [][2]string // kind ("0" exact / "1" sub), literal
-	comms   []uint32
-	exts    []c10Ext
-	larges  []c10Large
+	emptiedFam int // prefix set emptied in place keeps its family: 0 none, 1 IPv4, 2 IPv6 (protocol codes)
+	kind       int // 0 prefix 1 neighbor 2 aspath 3 comm 4 ext 5 large
+	id         int
+	pfx        []c10Pfx
+	nets       []netip.Prefix
+	singles    [][2]uint32 // mode, asn
+	res        [][2]string // kind ("0" exact / "1" sub), literal
+	comms      []uint32
+	exts       []c10Ext
+	larges     []c10Large
 }
 
-func (s *c10Set) name() string { return []string{"ps", "ns", "as", "cs", "es", "ls"}[s.kind] + fmt.Sprint(s.id) }
+func (s *c10Set) name() string {
+	return []string{"ps", "ns", "as", "cs", "es", "ls"}[s.kind] + fmt.Sprint(s.id)
+}
 
 type c10Cond struct {
 	tag  int
@@ -197,7 +200,7 @@ func c10SetLine(s *c10Set) string {
 	var b strings.Builder
 	switch s.kind {
 	case 0:
-		fam := 0
+		fam := s.emptiedFam
 		if len(s.pfx) > 0 {
 			fam = 1
 			if s.pfx[0].p.Addr().Is6() {
@@ -1238,6 +1241,17 @@ var c10ExportPeers = []*PeerInfo{
 	{PeerType: oc.PEER_TYPE_EXTERNAL, AS: 65009, LocalAS: 65000, Address: netip.MustParseAddr("2001:db8:9::1"), LocalAddress: netip.MustParseAddr("2001:db8:9::fe"), ID: netip.MustParseAddr("9.9.9.7")},
 }
 
+// documented route type of a route by the kind of its source (docs/sources/policy.md "route type
+// (internal/external/local)": internal = learned from an iBGP peer, external = learned from an eBGP peer —
+// a confederation eBGP session to another member AS included —, local = originated here)
+var c10SourceKinds = []struct {
+	kind string
+	typ  uint32 // 1 internal 2 external 3 local
+}{
+	{"ebgp", 2}, {"ibgp", 1}, {"ebgp-v6", 2}, {"local-with-as", 3}, {"ebgp", 2}, {"local", 3},
+	{"confed-other-member-as", 2}, {"confed-same-member-as", 1}, {"rr-client", 1}, {"rs-client", 2}, {"confed-other-member-as-v6", 2},
+}
+
 var c10Sources = []*PeerInfo{
 	{AS: 65001, LocalAS: 65000, Address: netip.MustParseAddr("10.0.0.1"), ID: netip.MustParseAddr("1.1.1.1")},
 	{AS: 65000, LocalAS: 65000, Address: netip.MustParseAddr("10.0.0.2"), ID: netip.MustParseAddr("2.2.2.2")},
@@ -1245,6 +1259,11 @@ var c10Sources = []*PeerInfo{
 	{AS: 65000, LocalAS: 65000},
 	{AS: 65003, LocalAS: 65000, Address: netip.MustParseAddr("10.0.1.1"), ID: netip.MustParseAddr("4.4.4.4")},
 	{},
+	{PeerType: oc.PEER_TYPE_EXTERNAL, AS: 65101, LocalAS: 65000, Confederation: true, Address: netip.MustParseAddr("10.0.2.1"), ID: netip.MustParseAddr("5.5.5.5")},
+	{PeerType: oc.PEER_TYPE_INTERNAL, AS: 65000, LocalAS: 65000, Confederation: true, Address: netip.MustParseAddr("10.0.2.2"), ID: netip.MustParseAddr("6.6.6.6")},
+	{PeerType: oc.PEER_TYPE_INTERNAL, AS: 65000, LocalAS: 65000, RouteReflectorClient: true, Address: netip.MustParseAddr("10.0.2.3"), ID: netip.MustParseAddr("7.7.7.7")},
+	{PeerType: oc.PEER_TYPE_EXTERNAL, AS: 65004, LocalAS: 65000, RouteServerClient: true, Address: netip.MustParseAddr("10.0.2.4"), ID: netip.MustParseAddr("8.8.8.8")},
+	{PeerType: oc.PEER_TYPE_EXTERNAL, AS: 65102, LocalAS: 65000, Confederation: true, Address: netip.MustParseAddr("2001:db8:2::1"), ID: netip.MustParseAddr("5.5.5.6")},
 }
 
 func (g *c10Gen) newRoute(id int) *c10Route {
@@ -1563,6 +1582,21 @@ func c10RunProgram(t *testing.T, o *vOut, g *c10Gen, p *c10Prog, routes []*c10Ro
 					for _, dc := range st.conds {
 						if c10CondType[dc.tag] == c.Type() {
 							tag = dc.tag
+							if dc.tag == 5 {
+								// source-dependent condition against the documented classification
+								for si, src := range c10Sources {
+									if src == rt.src {
+										k := c10SourceKinds[si]
+										o.stat("route_type_source_"+k.kind, 1)
+										if res != (dc.val == k.typ) {
+											o.fail("route-type-differs-from-documented:"+k.kind+":"+string(c10RouteTypeNames[dc.val]), map[string]any{
+												"source": k.kind, "source_as": src.AS, "local_as": src.LocalAS, "confederation_member": src.Confederation,
+												"condition": "route-type " + string(c10RouteTypeNames[dc.val]), "evaluate": res, "documented": dc.val == k.typ,
+												"route": c10RouteLine(rt)})
+										}
+									}
+								}
+							}
 						}
 					}
 					if res {
@@ -2206,6 +2240,10 @@ func c10CondOracle(t *testing.T, o *vOut, g *c10Gen) {
 	// after every edit the conditions must decide the LOGICAL member list, exactly as a policy
 	// configured up front with that list does
 	nEdits := r.pick(1, 2, 2, 3, 4)
+	emptyRefill := r.chance(25) // the set is emptied in place and re-filled with patterns of (mostly) other shapes
+	if emptyRefill {
+		nEdits = 2 + r.intn(2)
+	}
 	for e := 0; e < nEdits; e++ {
 		op := "append"
 		switch {
@@ -2213,6 +2251,12 @@ func c10CondOracle(t *testing.T, o *vOut, g *c10Gen) {
 			op = "remove"
 		case r.chance(15):
 			op = "replace"
+		}
+		removeAll := false
+		if emptyRefill && e == 0 && len(pats) > 0 {
+			op, removeAll = "remove", true
+		} else if emptyRefill && e == 1 {
+			op = "append"
 		}
 		before := append([]string{}, pats...)
 		var arg []string
@@ -2231,7 +2275,12 @@ func c10CondOracle(t *testing.T, o *vOut, g *c10Gen) {
 			err = rp.AddDefinedSet(c10MkRegexSet(t, kind, arg), true)
 			pats = append([]string{}, arg...)
 		case "remove":
-			switch r.intn(4) {
+			sel := r.intn(4)
+			if removeAll {
+				sel = 2
+				o.stat("condset_edit_emptied_then_refilled", 1)
+			}
+			switch sel {
 			case 0:
 				arg = []string{pats[0]}
 			case 1:
@@ -2312,7 +2361,6 @@ func c10CondOracle(t *testing.T, o *vOut, g *c10Gen) {
 	}
 	o.stat("condset_scenarios", 1)
 }
-
 
 // ---------- defined-set edits on the modelled set kinds (prefix / neighbor / as-path / exact community types) ----------
 //
@@ -2507,6 +2555,16 @@ func c10EditScenario(t *testing.T, o *vOut, g *c10Gen) {
 		return out
 	}
 	nEdits := r.pick(1, 2, 2, 3, 4)
+	// histories that cross a representation boundary: the set is emptied in place and re-filled
+	// (a prefix set preferably with the other address family), possibly more than once
+	var forced []string
+	if r.chance(30) {
+		forced = []string{"remove-all", "refill"}
+		if r.chance(30) {
+			forced = append(forced, "remove-all", "refill")
+		}
+		nEdits = len(forced) + r.intn(2)
+	}
 	for e := 0; e < nEdits; e++ {
 		keys := c10MemberKeys(s)
 		op := "append"
@@ -2516,17 +2574,40 @@ func c10EditScenario(t *testing.T, o *vOut, g *c10Gen) {
 		case r.chance(15):
 			op = "replace"
 		}
+		removeAll, otherFam := false, false
+		if e < len(forced) {
+			if forced[e] == "remove-all" && len(keys) > 0 {
+				op, removeAll = "remove", true
+			} else {
+				op, otherFam = "append", r.chance(65)
+			}
+		}
 		before := c10SetLine(s)
+		famBefore := 0
+		if kind == 0 {
+			famBefore = s.emptiedFam
+			if fam(s) >= 0 {
+				famBefore = fam(s) + 1
+			}
+		}
 		var arg *c10Set
 		var err error
 		switch op {
 		case "append":
-			arg = members(fam(s), true)
+			want := fam(s)
+			if kind == 0 && want < 0 && otherFam && famBefore > 0 {
+				want = 2 - famBefore // the family the emptied set did NOT have
+			}
+			arg = members(want, true)
 			arg.id = s.id
 			err = rp.AddDefinedSet(c10MkDefinedSet(t, arg), false)
 			c10SetAppend(s, arg)
+			s.emptiedFam = 0
+			if kind == 0 && famBefore > 0 && fam(s)+1 != famBefore {
+				o.stat("edit_prefix_refilled_other_family", 1)
+			}
 		case "replace":
-			arg = members(-1, kind == 0) // an emptied prefix set keeps its family: not comparable with a configured empty one
+			arg = members(-1, false) // by a shorter, longer or empty list; Replace takes the family of the new list
 			arg.id = s.id
 			err = rp.AddDefinedSet(c10MkDefinedSet(t, arg), true)
 			*s = *arg
@@ -2545,15 +2626,11 @@ func c10EditScenario(t *testing.T, o *vOut, g *c10Gen) {
 			default:
 				which = map[string]bool{keys[r.intn(len(keys))]: true}
 			}
-			if kind == 0 && len(which) >= len(map[string]bool(func() map[string]bool {
-				m := map[string]bool{}
-				for _, k := range keys {
-					m[k] = true
-				}
-				return m
-			}())) {
-				// never empty a prefix set by removal (it keeps its family, see above)
+			if removeAll {
 				which = map[string]bool{}
+				for _, k := range keys {
+					which[k] = true
+				}
 			}
 			arg = c10FilterSet(s, func(k string) bool { return which[k] })
 			if len(c10MemberKeys(arg)) == 0 {
@@ -2561,6 +2638,10 @@ func c10EditScenario(t *testing.T, o *vOut, g *c10Gen) {
 			}
 			err = rp.DeleteDefinedSet(c10MkDefinedSet(t, arg), false)
 			*s = *c10FilterSet(s, func(k string) bool { return !which[k] })
+			if kind == 0 && len(s.pfx) == 0 {
+				s.emptiedFam = famBefore // PrefixSet.Remove leaves the family of the set as it was
+				o.stat("edit_prefix_emptied_in_place", 1)
+			}
 		}
 		o.stat("edit_"+kindName+"_"+op, 1)
 		if err != nil {
@@ -2577,7 +2658,10 @@ func c10EditScenario(t *testing.T, o *vOut, g *c10Gen) {
 		live := verdicts(rp, true)
 		// metamorphic: a policy configured up front with the final list
 		rp2, cfg2 := c10Load(t, o, p)
-		if up := verdicts(rp2, false); !reflect.DeepEqual(up, live) {
+		// (a prefix set emptied in place keeps its family, a configured empty one has none: the two differ
+		// under INVERT — that is C15's known finding soft-reset!=fresh:emptied-prefix-set-invert, not judged
+		// here; the model is told the retained family and follows the code)
+		if up := verdicts(rp2, false); !(kind == 0 && len(s.pfx) == 0 && s.emptiedFam != 0) && !reflect.DeepEqual(up, live) {
 			first := 0
 			for first < len(up) && up[first] == live[first] {
 				first++
@@ -2871,7 +2955,9 @@ func c10MgmtScenario(t *testing.T, o *vOut, g *c10Gen) {
 				op, what = "add-with-existing-statement-name", polName(pol)
 				fresh, _ := NewStatement(c10StmtConfig(&c10Stmt{id: 800000 + q, acts: []c10Act{g.newAct(4)}}))
 				clash, _ := NewStatement(c10StmtConfig(&c10Stmt{id: stmts[r.intn(len(stmts))].id, acts: []c10Act{g.newAct(4)}}))
-				err = call(func() error { return rp.AddPolicy(&Policy{Name: fmt.Sprintf("new%d", q), Statements: []*Statement{fresh, clash}}, false) })
+				err = call(func() error {
+					return rp.AddPolicy(&Policy{Name: fmt.Sprintf("new%d", q), Statements: []*Statement{fresh, clash}}, false)
+				})
 			case 2:
 				op, what = "delete-unknown", "nope"
 				err = call(func() error { return rp.DeletePolicy(&Policy{Name: "nope"}, r.chance(50), r.chance(50), c10PeerIDs) })
